@@ -31,6 +31,7 @@ type inbound struct {
 	sender, devLocal, featRemote, fdIface, bindMgr, ops *types.Interface
 	processCmd                                          *ssa.Function
 	missing                                             []string
+	eng                                                 *PathEngine
 }
 
 func newInbound(p *Prog) *inbound {
@@ -312,7 +313,20 @@ func (ib *inbound) opaque(fn *ssa.Function) bool {
 	return false
 }
 
+// engine returns one engine per inbound abstraction: effects, gates and opacity do not
+// depend on the valuation (which is part of the memo key), so the set of relevant
+// functions and the summaries are shared by all valuations.
 func (ib *inbound) engine() *PathEngine {
+	if ib.eng != nil {
+		ib.eng.Incomplete = nil
+		return ib.eng
+	}
+	e := ib.newEngine()
+	ib.eng = e
+	return e
+}
+
+func (ib *inbound) newEngine() *PathEngine {
 	e := NewPathEngine(ib.p)
 	e.Effect = ib.effect
 	e.Decide = ib.decide
